@@ -110,9 +110,13 @@ def step (s : S) (line : String) : S × String :=
     match argNat? ws "i", argNat? ws "j" with
     | some i, some j =>
       if !ready || i ≥ s.rows.size || j ≥ s.rows.size then (s, "bad-op") else
+      -- opt=<mask>: unrequested outputs keep the harness's initial values (-1., -1, -1)
+      let opt := (argNat? ws "opt").getD 7
+      let fp := fun (p : Float) => if opt % 2 == 1 then fbits p else fbits (-1.0)
+      let fi := fun (bit : Nat) (v : Nat) => if (opt / bit) % 2 == 1 then toString v else "-1"
       match pairId (α := Float) s.m (rows.getD i []) (rows.getD j []) with
-      | some (p, nid, n) => (s, s!"ok {fbits p} {nid} {n}")
-      | none => (s, s!"einval {fbits 0.0} 0 0")
+      | some (p, nid, n) => (s, s!"ok {fp p} {fi 2 nid} {fi 4 n}")
+      | none => (s, s!"einval {fp 0.0} {fi 2 0} {fi 4 0}")
     | _, _ => (s, "bad-op")
   | "pairstr" :: _ =>
     match argHex? ws "a", argHex? ws "b" with
@@ -181,14 +185,24 @@ def step (s : S) (line : String) : S × String :=
     match argNat? ws "i", argNat? ws "j" with
     | some i, some j =>
       if !ready || i ≥ s.rows.size || j ≥ s.rows.size then (s, "bad-op") else
-      (s, pmLine (pairMatch (α := Float) s.m (rows.getD i []) (rows.getD j [])))
+      let opt := (argNat? ws "opt").getD 7
+      let fp := fun (p : Float) => if opt % 2 == 1 then fbits p else fbits (-1.0)
+      let fi := fun (bit : Nat) (v : Nat) => if (opt / bit) % 2 == 1 then toString v else "-1"
+      match pairMatch (α := Float) s.m (rows.getD i []) (rows.getD j []) with
+      | some (p, nm, n) => (s, s!"ok {fp p} {fi 2 nm} {fi 4 n}")
+      | none => (s, s!"einval {fp 0.0} {fi 2 0} {fi 4 0}")
     | _, _ => (s, "bad-op")
   | "jc" :: _ =>
     match argNat? ws "i", argNat? ws "j" with
     | some i, some j =>
       let K := if s.mode == 0 then (argNat? ws "k").getD 4 else s.abc.K
       if !ready || i ≥ s.rows.size || j ≥ s.rows.size || K < 2 then (s, "bad-op") else
-      (s, jcLine (jukesCantor s.jc K (rows.getD i []) (rows.getD j [])))
+      let opt := (argNat? ws "opt").getD 3
+      let ln := jcLine (jukesCantor s.jc K (rows.getD i []) (rows.getD j []))
+      let m1 := fbits (-1.0)
+      match ln.splitOn " " with
+      | [st, d, v] => (s, s!"{st} {if opt % 2 == 1 then d else m1} {if (opt / 2) % 2 == 1 then v else m1}")
+      | _ => (s, ln)
     | _, _ => (s, "bad-op")
   | "distpair" :: _ =>
     match argHex? ws "a", argHex? ws "b" with
@@ -216,7 +230,8 @@ def step (s : S) (line : String) : S × String :=
     | .ok mx =>
       let inf := Float.ofBits 0x7ff0000000000000
       let dv := fun (r : JCResult Float) => match r with | .ok d v => (d, v) | _ => (inf, inf)
-      (s, s!"ok d={dlist (mx.flatMap fun row => row.map fun r => (dv r).1)} v={dlist (mx.flatMap fun row => row.map fun r => (dv r).2)}")
+      let opt := (argNat? ws "opt").getD 3
+      (s, s!"ok d={if opt % 2 == 1 then dlist (mx.flatMap fun row => row.map fun r => (dv r).1) else "-"} v={if (opt / 2) % 2 == 1 then dlist (mx.flatMap fun row => row.map fun r => (dv r).2) else "-"}")
   | "avgconn" :: _ | "avgsub" :: _ =>
     match argNat? ws "max" with
     | some maxc =>
